@@ -51,6 +51,12 @@ func (cp *CachedPlanner) hash(ctx *PlanningContext) hashKey {
 	fragmentTypeConditions(ctx.Operation.SelectionSet, map[string]bool{}, &conds)
 	sort.Strings(conds)
 	s += strings.Join(conds, ",")
+	// variables used inside a literal of a custom scalar are declared downstream with the client's own type
+	for _, vd := range ctx.Operation.VariableDefinitions {
+		if vd.Type != nil {
+			s += " $" + vd.Variable + ":" + vd.Type.String()
+		}
+	}
 	sha1 := sha1.Sum([]byte(s))
 	return sha1
 }
